@@ -1,5 +1,6 @@
 """C16: rewards are conserved end to end and reach only eligible validators (DESIGN.md 6.16)."""
 import json
+import os
 from check import Part
 
 ID = "C16"
@@ -18,10 +19,12 @@ ASSUMPTIONS = [
     "bank: SendCoinsFromModuleToModule / FundCommunityPool fail exactly on insufficient funds or an injected fault; "
     "x/distribution: AllocateTokensToValidator adds tokens to outstanding rewards and tokens.MulDec(commission) to the accumulated "
     "commission, FundCommunityPool moves the coins into the distribution module account (as in cosmos-sdk v0.53 allocation.go/keeper.go); "
-    "ICS-20: a sent transfer is escrowed and refunded on timeout / error acknowledgement, the receiver is credited on success",
+    "ICS-20: a sent transfer is escrowed and refunded on timeout / error acknowledgement, the receiver is credited on success under the "
+    "denom ibc-go v10 computes (ExtractDenomFromPath, Denom.HasPrefix, IBCDenom are called by the driver's stub application)",
     "consumer ids < 10 (store order of decimal strings = numeric order)",
-    "denomination strings are mapped to indices by the driver (sorted strings = store order); the ICS-20 denom-trace hashing of "
-    "GetProviderDenom is checked by the driver against an independent implementation, not modelled in Coq",
+    "denomination strings are mapped to indices by the driver (sorted strings = store order); GetProviderDenom is modelled on "
+    "'/'-separated segments, sha256 is abstracted by an injective per-case table (key -> denom id) computed by the driver with the real hash; "
+    "packet denoms have a non-empty base and (default generator) no client-id segment",
 ]
 TRUSTED_BASE = [
     "modelled: consumer EndBlockRD/DistributeRewardsInternally/shouldSendRewardsToProvider/SendRewardsToProvider/AllowedRewardDenoms; "
@@ -37,6 +40,9 @@ LEVEL_NOTE = ("the clause 'rounding remainders go to the community pool or stay 
               "in /repo 2504227 (C16_failed_community_funding_keeps_credit, corpus/C16/forfeit_on_community_pool_failure.json)")
 
 P = 10 ** 18
+# a finding candidate awaiting triage by the lead is only generated on request (see the final report):
+# vouchers whose first remaining hop is an IBC v2 client id (07-tendermint-N)
+PENDING = os.environ.get("VERIF_C16_PENDING") == "1"
 
 
 def amount(rng, mode):
@@ -61,7 +67,7 @@ def gen_case(rng, tier):
     nc = rng.choice([1, 2, 2, 3])
     nv = rng.choice([2, 3, 4])
     mode = rng.choice(["small", "mid", "huge", "mixed", "mixed"])
-    syms = [0, 1] + [10 + i for i in range(2 * nc)] + [10 + 2 * nc]
+    syms = [0, 1, 2] + [10 + i for i in range(2 * nc)] + [10 + 2 * nc] + [30 + i for i in range(nc + 1)]
     cons = []
     for c in range(nc):
         fl = [1, 1, 1, 1]
@@ -71,13 +77,13 @@ def gen_case(rng, tier):
     epochs, bpe = rng.choice([0, 1, 1, 2, 3]), rng.choice([1, 2, 5])
     epochs0, bpe0 = epochs, bpe
     st_thr = [epochs * bpe]
-    reg = [s for s in syms if rng.random() < (0.8 if s in (0, 10, 12, 14) else 0.3)]
+    reg = [s for s in syms if rng.random() < (0.8 if s in (0, 2, 10, 12, 14) else 0.4)]
     rng.shuffle(reg)
     minrate = rng.choice([0, 0, P // 20])
     chains = []
     for c in range(nc):
         chains.append({"frac": frac(rng), "bpdt": rng.choice([1, 1, 2, 3, 5]),
-                       "rd": rng.choice([[0], [0], [0, 1], [], [1, 0], [0, 0]]), "prd": rng.choice([[2], [2], []]),
+                       "rd": rng.choice([[0], [0], [0, 1], [], [1, 0], [0, 0]]), "prd": rng.choice([[2], [2, 3], [3, 2], [3], []]),
                        "memo": c if rng.random() < 0.9 else rng.choice([(c + 1) % max(nc, 1), 7]),
                        "to_pool": 1 if rng.random() < 0.93 else 0})
     ops = []
@@ -117,9 +123,9 @@ def gen_case(rng, tier):
         c = rng.randrange(nc)
         if r < 0.22:       # consumer block
             chh[c] += rng.choice([1, 1, 1, 2, 4])
-            fees = [[d, amount(rng, mode)] for d in (0, 1, 2) if rng.random() < 0.7]
+            fees = [[d, amount(rng, mode)] for d in (0, 1, 2, 3) if rng.random() < 0.7]
             ops.append([11, c, chh[c], fees, rng.choice([1, 1, 1, 1, 0, 2]),
-                        [rng.choice([0, 1, 2])] if rng.random() < 0.08 else []])
+                        [rng.choice([0, 1, 2, 3])] if rng.random() < 0.08 else []])
         elif r < 0.36:     # relay
             ops.append([13, c, 1 if rng.random() < 0.85 else 0])
         elif r < 0.39:
@@ -129,7 +135,7 @@ def gen_case(rng, tier):
         elif r < 0.63:     # direct receive (malformed stream included)
             ch = rng.choice([c, c, c, nc, nc + 1])
             memo = rng.choice([-1, -1, c, c, rng.randrange(nc), 7, -2])
-            ops.append([3, ch, memo, rng.choice([0, 0, 1, 2, 2, 3]), amount(rng, mode),
+            ops.append([3, ch, memo, rng.choice([0, 0, 1, 2, 2, 3, 4, 4, 4, 5, 5] + ([6, 6, 6] if PENDING else [])), amount(rng, mode),
                         1 if rng.random() < 0.85 else 0, 1 if rng.random() < 0.85 else 0])
         elif r < 0.70:     # direct credit, backed or not
             s = rng.choice(syms)
@@ -158,7 +164,7 @@ def gen_case(rng, tier):
             st_thr[0] = epochs * bpe
             ops.append([10, epochs, bpe])
         else:
-            ops.append([12, c, frac(rng), rng.choice([1, 2, 3, 5]), rng.choice([[0], [0, 1], [], [1]]), rng.choice([[2], []])])
+            ops.append([12, c, frac(rng), rng.choice([1, 2, 3, 5]), rng.choice([[0], [0, 1], [], [1]]), rng.choice([[2], [2, 3], [3], []])])
     ops.append(begin())
     ops.append(begin())
     return {"nc": nc, "nv": nv, "cons": cons,
@@ -196,6 +202,14 @@ def fixed_cases():
                "chains": [{"frac": P // 4, "bpdt": 1, "rd": [0], "prd": [2], "memo": 0, "to_pool": 1}],
                "ops": [[8, 0, [[0, 1, 0]]], [1, 0, a], [2, 0, 0, a * P + extra], [4, 5, tax, st, 0, [], [], []],
                        [4, 6, tax, st, 0, [], [], []]]}
+    # reward denoms of every shape on one channel: provider-native returned, multi-hop voucher through the provider,
+    # consumer-native, third-chain token that reached the consumer directly; then a payout of the multi-hop denom
+    yield {"nc": 1, "nv": 3, "cons": [[1, 1, 1, 1]],
+           "prov": {"epochs": 1, "bpe": 1, "registered": [0, 2, 10, 30], "minrate": 0},
+           "chains": [{"frac": P // 4, "bpdt": 1, "rd": [0], "prd": [2, 3], "memo": 0, "to_pool": 1}],
+           "ops": [[8, 0, [[0, 1, 0], [1, 1, 0]]], [3, 0, 0, 0, 100, 1, 1], [3, 0, 0, 4, 200, 1, 1], [3, 0, -1, 4, 50, 1, 1],
+                   [3, 0, 0, 2, 300, 1, 1], [3, 0, 0, 5, 400, 1, 1], [4, 5, P // 50, st, 0, [], [], []],
+                   [11, 0, 2, [[3, 1000], [0, 10]], 1, []], [13, 0, 1], [13, 0, 1], [4, 6, P // 50, st, 0, [], [], []]]}
     # end to end: consumer block, transmission, relay, payout
     yield {"nc": 1, "nv": 3, "cons": [[1, 1, 1, 1]],
            "prov": {"epochs": 1, "bpe": 2, "registered": [10], "minrate": 0},
@@ -259,6 +273,8 @@ CLAUSES = {
     16: "a configuration operation changed credits or rewards",
     18: "credit was consumed but neither validators nor the community pool received it (loss beyond the proved dust bound T*(n-1)*10^-18 per allocation)",
     19: "allocation dust: part of the coins moved into the distribution account is recorded neither as outstanding rewards, nor in the community pool, nor as remaining credit (known finding C16-allocation-dust, within the proved bound)",
+    20: "a credit is stored under a denom that no account holds (not the denom under which the ICS-20 application delivered the coins): it can never be paid",
+    21: "the receiver's balance did not grow by the received amount under a single denom",
     99: "no observation",
 }
 
